@@ -29,6 +29,15 @@ CHECKS = {
             "Axis values and the cases of every slice of all 16 -x dimensions are compared with the model's buckets; slice counts/weighted means add up to the pooled values; csv rows and labels through the real readers; "
             "all 73414 calendar days are enumerated for the conversion functions.",
             DS_NOTE + " Day-of-year numbering after Feb 28 in non-leap years is not judged.", "DESIGN.md section 5, C11"),
+    "C12": ("Hypothesis-generated (dataset, metric, axis, output options) cases run through the driver; differential of the printed table against scores computed through the API, the calendar model for row labels, and -f/-acc metamorphic relations",
+            "Header, row count/order/labels and every printed cell (6 significant digits csv, 4 text) are compared with the computed scores for all 70 standard metrics and obsfcst; -f content equals stdout content; -acc equals running sums.",
+            "The computed score is Standard._get_x_y on a Data object built from the same files (metric correctness is C05/C06/C08).", "DESIGN.md section 5, C12"),
+    "C13": ("grammar-based command-line generation (Hypothesis) against an independent model of the documented semantics; option-order and --config metamorphic relations; exhaustive grids for the vector syntax and date ranges; enumerated rejection classes",
+            "Command lines with random option subsets/orders/values/spellings over generated files must print the table the model predicts; permuting options or moving them into --config files changes nothing; parse_numbers is decided on a full grid; 34 malformed invocations must end in an Error: exit.",
+            "Defaults the help text leaves open are never relied on (-x explicit, -b with -r, one event for non-threshold axes); date ranges with positive steps.", "DESIGN.md section 5, C13"),
+    "C19": ("enumerated cross product (stratified in quick, complete in thorough) of metric/diagram x -x x output type x variants on hand-built dataset shapes + Hypothesis-generated datasets; outcome oracle with exception bucketing",
+            "Every combination must return normally (writing a non-empty file with -f) or stop with SystemExit(!=0) after an Error: line; unhandled exceptions are bucketed by type@innermost repository frame.",
+            "Agg backend, low dpi; cartopy map backgrounds not installed.", "DESIGN.md section 5, C19"),
     "C14": ("Hypothesis-generated datasets with a climatology input; differential against the dictionary model (anomalies at the same coordinates) + metamorphic relation '-c X' vs 'X as extra input' through files",
             "Anomaly values, dropped cases (missing climatology, non-finite quotient), untouched non-obs/fcst fields, and the absence of the climatology from inputs/legend/header are checked for -c and -C.",
             DS_NOTE, "DESIGN.md section 5, C14"),
